@@ -44,6 +44,9 @@ def generate(G):
         dom = "D2" if n >= 8 else "D4"
         for u in (1, 2, 3):
             for passes in (1, 2):
+                # rank-3/4 partners: three uses or (two uses and two passes) cost 10+ min and 9+ GB each - not enumerated
+                if n >= 8 and (u == 3 or (u == 2 and passes == 2)):
+                    continue
                 prog, npart = progs[u]
                 tier = "quick" if (G.sname(xd), G.sname(yd), u, passes) in quick else "thorough"
                 id = "c03_shape_%s_%s_u%d_p%d" % (G.sname(xd), G.sname(yd), u, passes)
